@@ -244,9 +244,17 @@ EXITS = ["none", "target_at_x0", "maxfev1", "allfixed", "inconsistent", "callbac
 def minimize_level(name, n, stats, viol):
     """Invalid values must make minimize raise ValueError, whatever early exit is possible."""
     from scipy.optimize import Bounds
-    for v in lattice(name, n):
-        ok = valid_value(name, v, n)
-        for ex in EXITS:
+    jobs = [(v, ex, valid_value(name, v, n)) for v in lattice(name, n) for ex in EXITS]
+    if n >= 2:
+        # one variable fixed by equal bounds: the run has n - 1 variables, and a number of interpolation points is
+        # admissible for it if and only if it is admissible for n - 1 variables (more points than a quadratic in
+        # n - 1 variables has coefficients cannot be run with)
+        vals = lattice(name, n)
+        if name == "nb_points":
+            vals = sorted(set(vals) | set(lattice(name, n - 1)))
+        jobs += [(v, "onefixed", valid_value(name, v, n - 1 if name == "nb_points" else n)) for v in vals]
+    for v, ex, ok in jobs:
+        if True:
             if name == "nb_points" and ex in ("allfixed",) and v > 0:
                 continue  # which n counts is not stated; a non-positive size is invalid whatever n is
             opts = {}
@@ -259,6 +267,8 @@ def minimize_level(name, n, stats, viol):
                 opts["maxfev"] = 1
             elif ex == "allfixed":
                 kw["bounds"] = Bounds(np.full(n, 0.5), np.full(n, 0.5))
+            elif ex == "onefixed":
+                kw["bounds"] = Bounds(np.array([0.5] + [-2.0] * (n - 1)), np.array([0.5] + [3.0] * (n - 1)))
             elif ex == "inconsistent":
                 kw["bounds"] = Bounds(np.full(n, 1.0), np.full(n, -1.0))
             elif ex == "callback_stop":
